@@ -4,6 +4,7 @@
 use std::collections::VecDeque;
 use std::collections::BinaryHeap;
 use std::time::Duration;
+use std::mem;
 use core::cmp::Ordering;
 use vstd::std_specs::cmp::*;
 use vstd::std_specs::convert::*;
@@ -248,11 +249,19 @@ impl TcpHeaderBuilder {
 //@ rewrite `pub struct Endpoints \{` => `#[derive(Clone, Copy)] pub struct Endpoints {` ## derives other than Clone, Copy dropped
 //@ end
 //@ item sim/elvis-core/src/protocols/tcp/tcb/send_sequence_space.rs :: struct SendSequenceSpace strip-attrs
-//@ rewrite `pub struct SendSequenceSpace \{` => `#[derive(Clone, Copy)] pub struct SendSequenceSpace {` ## derives other than Clone, Copy dropped (Default replaced at its use site)
+//@ rewrite `pub struct SendSequenceSpace \{` => `#[derive(Clone, Copy, Default)] pub struct SendSequenceSpace {` ## derives other than Clone, Copy, Default dropped
 //@ end
+pub assume_specification [<SendSequenceSpace as Default>::default] () -> (r: SendSequenceSpace)
+    ensures r.una == 0, r.nxt == 0, r.wnd == 0, r.wl1 == 0, r.wl2 == 0, r.iss == 0;
 //@ item sim/elvis-core/src/protocols/tcp/tcb/receive_sequence_space.rs :: struct ReceiveSequenceSpace strip-attrs
 //@ rewrite `pub struct ReceiveSequenceSpace \{` => `#[derive(Clone, Copy)] pub struct ReceiveSequenceSpace {` ## derives other than Clone, Copy dropped
 //@ end
+impl Default for ReceiveSequenceSpace {
+//@ item sim/elvis-core/src/protocols/tcp/tcb/receive_sequence_space.rs :: impl Default for ReceiveSequenceSpace / fn default id=ReceiveSequenceSpace.default
+//@ contract
+    ensures r.irs == 0, r.nxt == 0, r.wnd == 65535,   //# full_window_by_default [C17]
+//@ end
+}
 //@ item sim/elvis-core/src/protocols/tcp/tcb/state.rs :: enum State strip-attrs
 //@ rewrite `pub enum State \{` => `#[derive(Clone, Copy, PartialEq, Eq)] pub enum State {` ## derive(Debug, Hash) dropped
 //@ end
@@ -265,7 +274,11 @@ impl PartialEqSpecImpl for State {
 //@ item sim/elvis-core/src/protocols/tcp/tcb/outgoing.rs :: struct Transmit strip-attrs
 //@ end
 //@ item sim/elvis-core/src/protocols/tcp/tcb/outgoing.rs :: struct Outgoing strip-attrs
+//@ rewrite `pub struct Outgoing \{` => `#[derive(Default)] pub struct Outgoing {` ## derive(Debug) dropped
 //@ end
+/// derive(Default) on Outgoing / Incoming / SendSequenceSpace (ASSUMED; semantics of derive)
+pub assume_specification [<Outgoing as Default>::default] () -> (r: Outgoing)
+    ensures r.text.wf(), r.text@.len() == 0, r.retransmit@.len() == 0, r.oneshot@.len() == 0;
 //@ item sim/elvis-core/src/protocols/tcp/tcb.rs :: enum Initiation strip-attrs
 //@ rewrite `enum Initiation \{` => `#[derive(Clone, Copy, PartialEq, Eq)] pub enum Initiation {` ## derive(Debug) dropped; visibility
 //@ end
@@ -299,10 +312,19 @@ impl PartialEqSpecImpl for ProcessSegmentResult {
 //@ rewrite `(\n\s*)time_wait: Option<Duration>,` => `\1pub time_wait: Option<Duration>,` ## visibility only
 //@ end
 //@ item sim/elvis-core/src/protocols/tcp/tcb.rs :: struct Incoming strip-attrs
-//@ rewrite `struct Incoming \{` => `pub struct Incoming {` ## visibility only
+//@ rewrite `struct Incoming \{` => `#[derive(Default)] pub struct Incoming {` ## visibility only; derive(Debug) dropped
 //@ rewrite `(\n\s*)segments: BinaryHeap<Segment>,` => `\1pub segments: BinaryHeap<Segment>,` ## visibility only
 //@ rewrite `(\n\s*)text: Message,` => `\1pub text: Message,` ## visibility only
 //@ end
+pub assume_specification [<Incoming as Default>::default] () -> (r: Incoming)
+    ensures r.text.wf(), r.text@.len() == 0, heap_seq(r.segments).len() == 0;
+impl Default for Timeouts {
+//@ item sim/elvis-core/src/protocols/tcp/tcb.rs :: impl Default for Timeouts / fn default id=Timeouts.default
+//@ rewrite `time_wait: Default::default\(\),` => `time_wait: None,` ## Option::default() is None (std)
+//@ contract
+    ensures r.time_wait is None, dur_ns(r.retransmission) == 100_000_000,
+//@ end
+}
 //@ item sim/elvis-core/src/protocols/tcp/tcb.rs :: struct Tcb strip-attrs
 //@ rewrite `(\n\s*)(id|mtu|initiation|state|snd|rcv|incoming|timeouts): ` => `\1pub \2: ` ## visibility only
 //@ end
@@ -333,6 +355,11 @@ pub open spec fn seq_acceptable(nxt: u32, wnd: u16, data_len: u32, seq: u32, syn
 /// derive(Default) on Message: no chunks, length zero (ASSUMED; semantics of derive)
 pub assume_specification [<Message as Default>::default] () -> (r: Message)
     ensures r.wf(), r@.len() == 0, r.chunks@.len() == 0, r.len == 0;
+/// what mem::take leaves behind for a Message is the empty message (ASSUMED; semantics of derive(Default))
+#[verifier::external_body]
+pub broadcast proof fn axiom_message_default(m: Message)
+    ensures #[trigger] is_default(m) ==> (m.wf() && m@.len() == 0),
+{}
 
 impl Segment {
 //@ item sim/elvis-core/src/protocols/tcp/tcb/segment.rs :: impl Segment / fn new id=Segment.new
@@ -349,6 +376,42 @@ impl Segment {
     ensures r.0 == self.header, r.1 == self.text,
 //@ end
 }
+/// reorder-queue order: the segment that comes first in the circular sequence space is the greatest,
+/// so that the max-heap pops segments in sequence-number order
+pub open spec fn seg_cmp(a: Segment, b: Segment) -> Ordering {
+    if a.header.seq == b.header.seq { Ordering::Equal }
+    else if circ_lt(a.header.seq, b.header.seq) { Ordering::Greater }
+    else { Ordering::Less }
+}
+impl PartialEqSpecImpl for Segment {
+    open spec fn obeys_eq_spec() -> bool { true }
+    open spec fn eq_spec(&self, other: &Self) -> bool { self.header.seq == other.header.seq }
+}
+impl PartialOrdSpecImpl for Segment {
+    open spec fn obeys_partial_cmp_spec() -> bool { true }
+    open spec fn partial_cmp_spec(&self, other: &Self) -> Option<Ordering> { Some(seg_cmp(*self, *other)) }
+}
+impl OrdSpecImpl for Segment {
+    open spec fn obeys_cmp_spec() -> bool { true }
+    open spec fn cmp_spec(&self, other: &Self) -> Ordering { seg_cmp(*self, *other) }
+}
+//@ item sim/elvis-core/src/protocols/tcp/tcb/segment.rs :: impl PartialEq for Segment id=Segment.eq props=C12,C01
+//@ end
+//@ item sim/elvis-core/src/protocols/tcp/tcb/segment.rs :: impl Eq for Segment id=Segment.Eq
+//@ end
+//@ item sim/elvis-core/src/protocols/tcp/tcb/segment.rs :: impl PartialOrd for Segment id=Segment.partial_cmp props=C12,C01
+//@ end
+//@ item sim/elvis-core/src/protocols/tcp/tcb/segment.rs :: impl Ord for Segment id=Segment.cmp props=C12,C01
+//@ end
+
+/// (C12) the reorder-queue order does not depend on absolute sequence numbers
+pub proof fn lemma_seg_cmp_shift(a: Segment, b: Segment, a2: Segment, b2: Segment, k: u32)   //# [C12]
+    requires a2.header.seq == add32(a.header.seq, k), b2.header.seq == add32(b.header.seq, k),
+    ensures seg_cmp(a2, b2) == seg_cmp(a, b),
+{
+    lemma_circ_shift(a.header.seq, b.header.seq, k);
+}
+
 impl Transmit {
 //@ item sim/elvis-core/src/protocols/tcp/tcb/outgoing.rs :: impl Transmit / fn new id=Transmit.new
 //@ contract
@@ -529,6 +592,98 @@ impl Tcb {
         final(self).snd.wnd == old(self).snd.wnd || final(self).snd.wnd == seg.wnd,   //# window_from_peer_only [C17]
         final(self).outgoing.retransmit@.len() <= old(self).outgoing.retransmit@.len(),
         forall|k: int| 0 <= k < final(self).outgoing.retransmit@.len() ==> old(self).outgoing.retransmit@.contains(#[trigger] final(self).outgoing.retransmit@[k]),
+//@ end
+
+//@ item sim/elvis-core/src/protocols/tcp/tcb.rs :: impl Tcb / fn new id=Tcb.new
+//@ contract
+    requires rcv.wnd == 65535, state == State::SynSent ==> snd.una == snd.iss,
+    ensures
+        r.id == id && r.mtu == mtu && r.initiation == initiation && r.state == state && r.snd == snd && r.rcv == rcv,
+        r.outgoing.text@.len() == 0 && r.outgoing.retransmit@.len() == 0 && r.outgoing.oneshot@.len() == 0,
+        r.incoming.text@.len() == 0 && heap_seq(r.incoming.segments).len() == 0,
+        r.timeouts.time_wait is None,
+        tcb_inv(r),
+//@ start
+        proof { reveal(rtx_wf); }
+//@ end
+
+//@ item sim/elvis-core/src/protocols/tcp/tcb.rs :: impl Tcb / fn open id=Tcb.open
+//@ start
+        broadcast use {lemma_with_flag_b, lemma_zero_flags};
+//@ contract
+    ensures
+        tcb_inv(r),
+        // (C03) an active open creates the TCB in SYN-SENT and queues a SYN numbered ISS
+        r.state == State::SynSent && r.snd.iss == iss && r.snd.una == iss && r.snd.nxt == add32(iss, 1) && r.mtu == mtu && r.id == id,   //# active_open_enters_syn_sent [C03,C12]
+        r.outgoing.retransmit@.len() == 1 && r.outgoing.retransmit@[0].segment.header.seq == iss
+            && r.outgoing.retransmit@[0].segment.header.ctl.ssyn() && !r.outgoing.retransmit@[0].segment.header.ctl.sack()
+            && r.outgoing.retransmit@[0].segment.text@.len() == 0,   //# queues_syn_with_iss [C03,C12]
+        r.incoming.text@.len() == 0 && r.outgoing.text@.len() == 0,
+//@ end
+
+//@ item sim/elvis-core/src/protocols/tcp/tcb.rs :: impl Tcb / fn send id=Tcb.send
+//@ contract
+    requires tcb_inv(*old(self)), message.wf(), old(self).outgoing.text@.len() + message@.len() <= usize::MAX,
+    ensures
+        tcb_inv(*final(self)),
+        final(self).state == old(self).state && final(self).snd == old(self).snd && final(self).rcv == old(self).rcv
+            && final(self).incoming == old(self).incoming && final(self).timeouts == old(self).timeouts
+            && final(self).outgoing.retransmit@ == old(self).outgoing.retransmit@ && final(self).outgoing.oneshot@ == old(self).outgoing.oneshot@,   //# only_queues_text [C01,C17]
+        // (C01) a write is accepted, in order and unmodified, exactly in the states that allow sending
+        (old(self).state == State::SynSent || old(self).state == State::SynReceived || old(self).state == State::Established)
+            ==> final(self).outgoing.text@ == old(self).outgoing.text@ + message@,   //# appends_in_order [C01]
+        !(old(self).state == State::SynSent || old(self).state == State::SynReceived || old(self).state == State::Established)
+            ==> final(self).outgoing.text@ == old(self).outgoing.text@,   //# refused_after_close [C01,C03]
+//@ end
+
+//@ item sim/elvis-core/src/protocols/tcp/tcb.rs :: impl Tcb / fn receive id=Tcb.receive
+//@ rewrite `Default::default\(\)` => `Message::default()` ## the inferred type of Default::default() is Message
+//@ contract
+    requires tcb_inv(*old(self)),
+//@ start
+        broadcast use axiom_message_default;
+//@ contract
+    ensures
+        tcb_inv(*final(self)), r.wf(),
+        final(self).state == old(self).state && final(self).snd == old(self).snd && final(self).rcv == old(self).rcv
+            && final(self).outgoing == old(self).outgoing && final(self).timeouts == old(self).timeouts,   //# only_drains_buffer [C01,C17]
+        // (C01) reads hand out the buffered bytes exactly once, in order
+        r@ + final(self).incoming.text@ == old(self).incoming.text@,   //# delivers_buffer_exactly_once [C01]
+        (old(self).state != State::Closing && old(self).state != State::LastAck && old(self).state != State::TimeWait)
+            ==> r@ == old(self).incoming.text@,   //# delivers_everything_buffered [C01]
+//@ end
+
+//@ item sim/elvis-core/src/protocols/tcp/tcb.rs :: impl Tcb / fn close id=Tcb.close
+//@ start
+        broadcast use {lemma_with_flag_b, lemma_zero_flags};
+//@ contract
+    requires tcb_inv(*old(self)),
+    ensures
+        tcb_inv(*final(self)),
+        final(self).rcv == old(self).rcv && final(self).incoming == old(self).incoming && final(self).outgoing.text == old(self).outgoing.text
+            && final(self).snd.una == old(self).snd.una && final(self).snd.wnd == old(self).snd.wnd && final(self).snd.iss == old(self).snd.iss,
+        // (C03) CLOSE moves along the diagram: SYN-RCVD/ESTAB -> FIN-WAIT-1, CLOSE-WAIT -> LAST-ACK, nothing else
+        final(self).state == (match old(self).state {
+            State::SynReceived => State::FinWait1, State::Established => State::FinWait1, State::CloseWait => State::LastAck, s => s }),   //# close_transitions [C03]
+        (r == CloseResult::Ok) == (old(self).state == State::SynReceived || old(self).state == State::Established || old(self).state == State::CloseWait),
+        // a FIN consuming one sequence number is queued for (re)transmission
+        r == CloseResult::Ok ==> (final(self).snd.nxt == add32(old(self).snd.nxt, 1)
+            && final(self).outgoing.retransmit@.len() == old(self).outgoing.retransmit@.len() + 1
+            && final(self).outgoing.retransmit@.last().segment.header.ctl.sfin()
+            && final(self).outgoing.retransmit@.last().segment.header.ctl.sack()
+            && final(self).outgoing.retransmit@.last().segment.header.ack == old(self).rcv.nxt),   //# queues_fin [C03]
+        r != CloseResult::Ok ==> final(self).snd == old(self).snd && final(self).outgoing.retransmit@ == old(self).outgoing.retransmit@,
+        // (C03) the FIN is numbered after all data submitted before the close ...
+        (r == CloseResult::Ok && old(self).outgoing.text@.len() == 0)
+            ==> final(self).outgoing.retransmit@.last().segment.header.seq == old(self).snd.nxt,   //# fin_after_all_segmentized_data [C03]
+        // ... including data that has been submitted but not yet segmentized (KNOWN FINDING K-C03-close)
+        (r == CloseResult::Ok && old(self).outgoing.text@.len() > 0)
+            ==> final(self).outgoing.retransmit@.last().segment.header.seq == add32(old(self).snd.nxt, old(self).outgoing.text@.len() as u32),   //# fin_after_unsegmentized_data [C03]
+//@ end
+
+//@ item sim/elvis-core/src/protocols/tcp/tcb.rs :: impl Tcb / fn status id=Tcb.status
+//@ contract
+    ensures r == self.state,
 //@ end
 
 //@ item sim/elvis-core/src/protocols/tcp/tcb.rs :: impl Tcb / fn process_segment id=Tcb.process_segment
